@@ -93,8 +93,8 @@ Proof. eexists. eexists. eexists. repeat split; vm_compute; reflexivity. Qed.
    exactly what regex_eval of the DependencyResolver records *)
 
 
-Definition env0 : list (string * nat) := [("inputs", 0)].
-Definition st0 : st := ([VInp], []).
+Definition env0 : list (string * nat) := genv.
+Definition st0 : st := (gstore, []).
 
 Lemma get_prop_spec inp v k s v' s' :
   get_prop inp v k s = Ok v' s' ->
@@ -113,7 +113,7 @@ Qed.
 Definition chain (l : list seg) : expr := fold_left seg_access l (EId "inputs").
 
 Definition chain_post (l : list seg) (v : val) (s' : st) : Prop :=
-  fst s' = [VInp] /\
+  fst s' = gstore /\
   match l with
   | [] => v = VInp /\ snd s' = []
   | g :: _ => v <> VInp /\ snd s' = [seg_key g]
@@ -165,7 +165,7 @@ Proof.
   destruct n as [|n]; [discriminate|]. simpl in H.
   destruct n as [|n]; [discriminate|]. simpl in H.
   fold (chain segs) in H. unfold ref_expr in H. fold (chain segs) in H.
-  destruct (eval_e inp n [("inputs", 0)] (chain segs) ([VInp], [])) as [v s1| | |] eqn:E; try discriminate.
+  match type of H with bind ?X _ = _ => destruct X as [v s1| | |] eqn:E; try discriminate end.
   simpl in H. inversion H; subst. exists n, v. exact E.
 Qed.
 
